@@ -823,6 +823,8 @@ class OpsMixin:
             k = lo.value
             if len(base.items) >= k and all(not isinstance(i, (Rep, Splice)) for i in base.items[:k]):
                 return PList(list(base.items[k:]))
+        if lo is None and hi is None and isinstance(stp, Cst) and stp.value == -1 and isinstance(base, (UList, PList, SColl, StrOp)):
+            return StrOp("reversed", [base])
         desc = f"{'' if lo is None else c(lo)}:{'' if hi is None else c(hi)}" + ("" if stp is None else f":{c(stp)}")
         return StrOp("slice", [base, desc])
 
